@@ -41,10 +41,28 @@ def run(ctx):
     powers, me = [2, 2, 1], "v2"
     info = cc.run_driver(ctx, binp, {"mode": "info", "powers": powers, "byz": [], "maxround": 4}, "info")
     byz = [n for n in info["names"] if n != me]
-    mc = cc.solo_mc(ctx, "C02_solo_run", info, me, 1, ["Z0"])
+    witnesses = {}
+
+    def collect(r):
+        for g, lst in cc.solo_witnesses(r.out, me).items():
+            witnesses.setdefault(g, [])
+            for st in lst:
+                if st not in witnesses[g]:
+                    witnesses[g].append(st)
+
+    mc = cc.solo_mc(ctx, "C02_solo_run", info, me, 1, ["Z0"], witness_k=2)
     rA = ctx.tlc(mc, mc + ".cfg", must_pass=True, timeout=2400, label="C02_solo", heap="8g")
-    tot["states"] += rA.distinct
-    tot["transitions"] += rA.generated
+    collect(rA)
+    # coverage-goal witnesses from time-limited breadth-first runs of larger configs (two valid adversarial
+    # blocks; rounds 0..2 with an invalid block and the node's own proposal in round 2)
+    for nm, mrw, vals, budget in (("C02_wit_a", 1, ["Z0", "Z1"], 60 if quick else 400), ("C02_wit_b", 2, ["Z0", "ZX"], 100 if quick else 600)):
+        mw = cc.solo_mc(ctx, nm, info, me, mrw, vals, witness_k=2)
+        rw_ = ctx.tlc(mw, mw + ".cfg", timeout=budget, label=nm, heap="8g")
+        if rw_.violations or rw_.errors:
+            ctx.save_log(nm, rw_.out)
+            raise Undecided("breadth-first run %s of the real solo spec reported %s" % (nm, (rw_.violations or rw_.errors)[:1]))
+        collect(rw_)
+        tot["transitions"] += rw_.generated
     exh = [{"config": "solo rounds 0..1, env values {Z0}", "states": rA.distinct, "complete": True}]
     if not quick:
         mc2 = cc.solo_mc(ctx, "C02_solo_zx", info, me, 1, ["ZX"])
@@ -73,33 +91,52 @@ def run(ctx):
             raise Undecided("vacuity: weakened solo spec %s does not violate %s (found %s)" % (weak, inv, found))
     # behaviours of the solo spec (rounds 0..2, valid and invalid adversarial blocks) replayed on a real
     # node that signs with a real FilePV
-    mcs = cc.solo_mc(ctx, "C02_solo_sim", info, me, 2, ["Z0", "ZX"], view=False)
-    nb = 120 if quick else 4000
-    rS = ctx.tlc(mcs, mcs + ".cfg", simulate="file=%s,num=%d" % (os.path.join(ctx.spec_copy(), "behS"), nb),
-                 depth=60, seed=ctx.seed, workers=1, timeout=1500, label="C02_solo_sim")
-    if rS.violations or rS.errors:
-        ctx.save_log("C02_solo_sim", rS.out)
-        raise Undecided("simulation of the real solo spec reported %s" % (rS.violations or rS.errors)[:1])
-    tot["transitions"] += rS.generated
-    scheds = cc.solo_sim_to_scheds(ctx.spec_copy(), "behS", me)
+    scheds = []
+    nb = 50 if quick else 3000
+    for tag, noenv in (("S", ()), ("D", ("commit",))):     # D: no early commit, behaviours run deep into later rounds
+        mcs = cc.solo_mc(ctx, "C02_solo_sim" + tag, info, me, 2, ["Z0", "ZX"], view=False, noenv=noenv)
+        rS = ctx.tlc(mcs, mcs + ".cfg", simulate="file=%s,num=%d" % (os.path.join(ctx.spec_copy(), "beh" + tag), nb),
+                     depth=60, seed=ctx.seed, workers=1, timeout=1500, label="C02_solo_sim" + tag)
+        if rS.violations or rS.errors:
+            ctx.save_log("C02_solo_sim" + tag, rS.out)
+            raise Undecided("simulation of the real solo spec reported %s" % (rS.violations or rS.errors)[:1])
+        tot["transitions"] += rS.generated
+        more = cc.solo_sim_to_scheds(ctx.spec_copy(), "beh" + tag, me)
+        for sc in more:
+            sc["id"] += len(scheds)
+        scheds += more
+    wsched = []
+    for g in sorted(witnesses):
+        for steps in witnesses[g]:
+            wsched.append({"id": 700000 + len(wsched), "steps": steps})
     inp = {"mode": "replay", "powers": powers, "byz": byz, "maxround": 3, "filepv": True, "scheds": scheds,
-           "random": 100 if quick else 3000, "randlen": 120}
+           "random": 50 if quick else 3000, "randlen": 120}
     rows, stats = cc.run_driver(ctx, binp, inp, "solo")
+    # the goal witnesses, each continued by 40 random steps, three different continuations each
+    for rep in range(3 if quick else 12):
+        wi = dict(inp, scheds=[dict(sc, id=sc["id"] + 1000 * rep) for sc in wsched], random=0, randtail=40)
+        rows_w, stats_w = cc.run_driver(ctx, binp, wi, "solo-wit%d" % rep)
+        off = max([r["run"] for r in rows] + [0])
+        for r in rows_w:
+            r["run"] += off
+        rows += rows_w
+        stats = {k: stats[k] + stats_w[k] for k in stats}
     v = cc.validate(ctx, rows, info, byz, 3, "solo", dedupe=True)
     account(v, rows, "solo")
     cov["configs"].append({"config": "1 correct (power 1) vs 2 adversarial validators (power 2 each)", "exhaustive_tlc": exh,
                            "simulated_behaviours_replayed": len(scheds), "driver": stats,
+                           "coverage_goal_witnesses": {g: len(v) for g, v in sorted(witnesses.items())},
                            "events_validated_after_prefix_dedupe": v["events"]})
     tot["samples"].append(core.abridge([{k: r.get(k) for k in ("ev", "n", "m", "k", "signs")} for r in rows if r.get("signs")][:6], 6))
 
     # ---------------- B. the node inside a network: attack library + random walks, FilePV signing ----
-    for (tag, powers, bi) in (("eq0", [1, 1, 1, 1], 0), ("eq3", [1, 1, 1, 1], 3), ("w2", [2, 2, 1, 1], 2)):
+    for (tag, powers, bi) in ((("eq0", [1, 1, 1, 1], 0),) if quick else (("eq0", [1, 1, 1, 1], 0), ("eq3", [1, 1, 1, 1], 3), ("w2", [2, 2, 1, 1], 2))):
         info3 = cc.run_driver(ctx, binp, {"mode": "info", "powers": powers, "byz": [], "maxround": 4}, "info" + tag)
         byz3 = [info3["names"][bi]]
         attacks = [a for a in load_attacks() if a["powers"] == powers and a["byz"] == byz3]
         scheds = [{"id": 100000 + k, "steps": a["steps"]} for k, a in enumerate(attacks)]
         inp = {"mode": "replay", "powers": powers, "byz": byz3, "maxround": 3, "filepv": True, "scheds": scheds,
-               "random": 40 if quick else 2000, "randlen": 150}
+               "random": 25 if quick else 2000, "randlen": 150}
         rows, stats = cc.run_driver(ctx, binp, inp, tag)
         v = cc.validate(ctx, rows, info3, byz3, 3, tag, dedupe=True)
         account(v, rows, "3+1 " + tag)
